@@ -6,7 +6,7 @@ from harness.core import coq_N, coq_nat, coq_list, coq_bool, coq_bytes, exn_kind
 from harness.drivers import memo_common as mc
 
 PROP = "C20"
-COQ_REQUIRES = ["Hio.Model.MemoGram", "Hio.Model.MemoRx"]
+COQ_REQUIRES = ["Hio.Model.MemoGram", "Hio.Model.MemoTx", "Hio.Model.MemoRx"]
 COQ_CHECK = "MemoRx.check_case20"
 COQ_CASE_TYPE = "MemoRx.case20"
 COQ_BRANCHES = ("MemoRx.case20_branches", "MemoRx.n_branches20")
@@ -17,7 +17,10 @@ RULE = ("1-3 unicode memos (unique texts, 1..120 bytes, multi-byte characters sp
         ".size setters in random order, sizes at and around the minimum of each (curt, code) pair) precedes the send; the "
         "receiver has its own independent code/curt/size (often smaller than the grams it receives) which are also changed "
         "between arrivals; the transferable ('D') signer often has a rotated current key pair in both keeps; the receiver is "
-        "a Memoer or an AuthMemoer; all grams delivered to a real receiving Memoer as a permutation "
+        "a Memoer or an AuthMemoer; plus sender-side fault histories: one Memoer queues 2-5 memos for 2-4 destinations "
+        "over a scripted transport (per destination and attempt: accept n incl. 0, all, or an unavailable errno; "
+        "destinations down all the time), serviced greedily or once-style within a bounded budget of send attempts, each "
+        "destination with its own receiver; all grams delivered to a real receiving Memoer as a permutation "
         "with duplicates, interleaved across memos, sometimes with a gram withheld; serviced after every datagram, "
         "only at the end, once-style, or stage by stage; non-trivial = some memo has >= 2 grams and the delivery is "
         "not the send order, or has a duplicate, or memos are interleaved")
@@ -122,7 +125,7 @@ def directed():
     # duplicates before completion are harmless
     out.append({"authic": False, "memos": [_memo("dups before completion", "bAAA", True, 40, None, 1, 54)],
                 "schedule": [[0, 1], [0, 1], [0, 0], [0, 0], [0, 2], [0, 1]] + [[0, i] for i in range(3, 8)], "svc": "all"})
-    return out
+    return out + _tx_directed()
 
 
 def _text(rng, used):
@@ -186,7 +189,7 @@ def generate(rng, tier):
             c["rxsets"] = [[rng.random(), rng.choice([["size", rng.choice([1, 25, 33, 60, 124, 165])], ["curt", rng.random() < 0.5],
                                                      ["code", rng.choice(mc.ZERO_CODES)]])] for _ in range(rng.randint(0, 3))]
         out.append(c)
-    return out
+    return out + _tx_generate(rng, 60 if tier == "quick" else 900, 200000)
 
 
 def _schedule(case, counts):
@@ -215,6 +218,258 @@ def _schedule(case, counts):
         allg = allg + [rng.choice(allg) for _ in range(rng.randint(1, 4))] if allg else allg
     rng.shuffle(allg)
     return allg
+
+
+
+# --------------------------------------------------------------------------- sender-side fault histories ("tx" cases)
+# One sending Memoer queues memos for several destinations (memoit) and is serviced (serviceAllTx / serviceAllTxOnce)
+# over a scripted transport: per destination a list of per-attempt results (accept n incl. 0, accept all, OSError with an
+# unavailable errno), or "down" (every attempt unavailable); afterwards everything is accepted.  A datagram reaches the
+# destination's receiver when all its bytes were accepted.  The number of send attempts is bounded by the budget.
+
+UNAVAILABLE = ["ECONNREFUSED", "ENOENT", "ECONNRESET", "ENETUNREACH", "EHOSTUNREACH", "EHOSTDOWN", "ETIMEDOUT"]
+
+
+def _tx_case(cfg, memos, policy, ops=None, authic=None, budget=None):
+    ops = ops or ([["memoit", i] for i in range(len(memos))] + [["svc"]] * 6)
+    return {"kind": "tx", "authic": cfg["code"] in mc.SIGNED if authic is None else authic, "cfg": cfg, "memos": memos,
+            "policy": policy, "ops": ops, "budget": budget or 400}
+
+
+def _tx_directed():
+    out = []
+    k = 300
+    for code in mc.ZERO_CODES:
+        for curt in (False, True):
+            k += 1
+            sg = 0 if code in mc.SIGNED else None
+            cfg = {"code": code, "curt": curt, "size": _min_size(code, curt) + (40 if sg is not None else 6), "signer": sg}
+            m = lambda t, d, j: {"text": t + " %d wörld €" % k, "dst": d, "mid": 10 * k + j}
+            memos = [m("to the peer that goes away", 1, 0), m("to a healthy peer", 2, 1), m("to another healthy peer", 3, 2)]
+            # the C20-8 shape: first gram to dst 1 parked by a would-block / partial send, its retry finds the peer gone
+            out.append(_tx_case(cfg, memos, {"1": [["acc", 0], ["err", "ECONNREFUSED"]], "2": [], "3": [["acc", 3]]}))
+            out.append(_tx_case(cfg, memos, {"1": [["acc", 5], ["err", "ENOENT"]] + [["err", "ENOENT"]] * 40, "2": [["acc", 0]], "3": []},
+                                ops=[["memoit", 0], ["memoit", 1], ["once"], ["once"], ["memoit", 2]] + [["once"]] * 40))
+            # ... and the peer stays away after its first gram was parked (greedy and once-style servicing)
+            out.append(_tx_case(cfg, memos, {"1": {"hist": [["acc", 0]], "then": "down"}, "2": [["acc", 2]], "3": []}))
+            out.append(_tx_case(cfg, memos, {"1": {"hist": [["acc", 4], ["acc", 0]], "then": "down"}, "2": [], "3": [["acc", 0]]},
+                                ops=[["memoit", 0], ["memoit", 1], ["memoit", 2]] + [["once"]] * 10))
+            # a destination that is down all the time, between two healthy ones; backpressure on the healthy ones
+            out.append(_tx_case(cfg, [m("first healthy", 2, 0), m("nobody there", 1, 1), m("second healthy", 3, 2)],
+                                {"1": "down", "2": [["acc", 0], ["acc", 1], ["acc", 0], ["acc", 7]], "3": [["acc", 2], ["acc", 0]]}))
+    return out
+
+
+def _tx_generate(rng, n, base):
+    out = []
+    for i in range(n):
+        code = rng.choice(mc.ZERO_CODES)
+        curt = rng.random() < 0.5
+        sg = rng.randrange(3) if code in mc.SIGNED else None
+        cfg = {"code": code, "curt": curt, "size": _min_size(code, curt) + rng.choice([1, 4, 9, 30] if sg is None else [30, 60]), "signer": sg}
+        nd = rng.randint(2, 4)
+        used = set()
+        memos = [{"text": _text(rng, used) if sg is None else _text(rng, used)[:40] or "x", "dst": rng.randint(1, nd), "mid": base + 10 * i + j}
+                 for j in range(rng.randint(2, 5))]
+        policy = {}
+        for d in range(1, nd + 1):
+            r = rng.random()
+            if r < 0.2:
+                policy[str(d)] = "down"
+            else:
+                hist = []
+                for _ in range(rng.randint(0, 6)):
+                    q = rng.random()
+                    hist.append(["acc", 0] if q < 0.35 else ["acc", rng.randint(1, 12)] if q < 0.7 else ["all"] if q < 0.8
+                                else ["err", rng.choice(UNAVAILABLE)])
+                policy[str(d)] = hist
+                if hist and rng.random() < 0.3:
+                    policy[str(d)] = {"hist": [h for h in hist if h[0] != "err"], "then": "down"}
+        ops = []
+        pend = list(range(len(memos)))
+        while pend:
+            ops.append(["memoit", pend.pop(0)])
+            if rng.random() < 0.4:
+                ops.append(rng.choice([["svc"], ["once"]]))
+        entry = rng.choice(["svc", "once"])
+        ops += [[entry]] * (6 if entry == "svc" else 80)
+        out.append(_tx_case(cfg, memos, policy, ops, authic=(sg is not None and rng.random() < 0.8), budget=600))
+    return out
+
+
+class _Budget(RuntimeError):
+    pass
+
+
+def _run_tx(case):
+    import errno as _errno
+    from base64 import urlsafe_b64encode
+    cfg = case["cfg"]
+    keep, vids = mc.keep_and_vids()
+    cls = mc.memoer_class()
+    state = {"calls": 0, "log": [], "partial": {}, "delivered": {}, "attempt": {}, "exhausted": False}
+
+    class TxSender(cls):
+        def sign(self, vid, ser):
+            sig = super().sign(vid, ser)
+            text = urlsafe_b64encode(sig) if self.curt else bytes(sig)
+            self.slog.append([mc._b(vid).hex(), bytes(ser).hex(), text.hex()])
+            return sig
+
+        def rend(self, memo, vid=None):
+            grams = super().rend(memo, vid)
+            self.rends.append([bytes(g).hex() for g in grams])
+            return grams
+
+        def send(self, gram, dst, *, echoic=False):
+            state["calls"] += 1
+            if state["calls"] > case["budget"]:
+                state["exhausted"] = True
+                raise _Budget("send attempt budget exhausted")
+            pol = case["policy"].get(dst, [])
+            k = state["attempt"].get(dst, 0)
+            state["attempt"][dst] = k + 1
+            if isinstance(pol, dict):          # {"hist": [...], "then": "down"}: goes away for good after the history
+                r = pol["hist"][k] if k < len(pol["hist"]) else ["err", "ECONNREFUSED"]
+            else:
+                r = ["err", "ECONNREFUSED"] if pol == "down" else (pol[k] if k < len(pol) else ["all"])
+            offered = bytes(gram)
+            state["log"].append([dst, offered.hex(), r])
+            if r[0] == "err":
+                state["partial"].pop(dst, None)
+                raise OSError(getattr(_errno, r[1]), r[1])
+            n = len(offered) if r[0] == "all" else min(r[1], len(offered))
+            buf = state["partial"].get(dst, b"") + offered[:n]
+            if n == len(offered):
+                state["delivered"].setdefault(dst, []).append(buf)
+                state["partial"].pop(dst, None)
+            else:
+                state["partial"][dst] = buf
+            return n
+
+    vid = vids[cfg["signer"]] if cfg["signer"] is not None else None
+    tx = TxSender(code=cfg["code"], curt=cfg["curt"], size=cfg["size"], keep=keep, vid=vid)
+    tx.opened = True
+    tx.slog, tx.rends = [], []
+    tx.mids = [mc.mid_of(m["mid"]) for m in case["memos"]]     # memos are rent in queue order
+    excs, order = [], []
+    import logging
+    logging.disable(logging.CRITICAL)
+    def do(op):
+        try:
+            if op[0] == "memoit":
+                m = case["memos"][op[1]]
+                tx.memoit(m["text"], str(m["dst"]), vid)
+                order.append(op[1])
+            elif op[0] == "svc":
+                tx.serviceAllTx()
+            else:
+                tx.serviceAllTxOnce()
+            excs.append(None)
+        except Exception as ex:
+            excs.append(exn_kind(ex))
+    ops_run = []
+    for op in case["ops"]:
+        ops_run.append(op); do(op)
+    # keep servicing through the case's (last used) entry point until the sender is idle: the scripted push-back is
+    # finite, so this ends unless servicing spins (then the send-attempt budget stops it)
+    entry = next((op for op in reversed(case["ops"]) if op[0] != "memoit"), ["svc"])
+    for _ in range(400):
+        if state["exhausted"] or excs[-1:] not in ([None], []) or not (tx.txms or tx.txgs or tx.txbs[1] is not None):
+            break
+        ops_run.append(entry); do(entry)
+    # receivers, one per destination
+    rxs = {}
+    for dst in sorted({str(m["dst"]) for m in case["memos"]}):
+        rx = mc.new_receiver(case["authic"])
+        ops = []
+        for d in state["delivered"].get(dst, []):
+            ops += [["dgram", d.hex(), 1], ["all"]]
+        ops.append(["all"])
+        rexcs = mc.run_rx_ops(rx, ops)
+        o = mc.observe_rx(rx)
+        o.update({"excs": rexcs, "ops": ops})
+        rxs[dst] = o
+    return {"kind": "tx", "excs": excs, "ops_run": ops_run, "order": order, "rends": tx.rends, "sign": tx.slog, "size": tx.size,
+            "vid": vid if tx.code in mc.SIGNED else None, "log": state["log"], "exhausted": state["exhausted"],
+            "txgs": [[bytes(g).hex(), d] for g, d in tx.txgs], "txbs": [bytes(tx.txbs[0]).hex(), tx.txbs[1]],
+            "txms": len(tx.txms), "rxs": rxs}
+
+
+def _tx_available(case, dst):
+    pol = case["policy"].get(str(dst), [])
+    return not isinstance(pol, dict) and pol != "down" and not any(r[0] == "err" for r in pol)
+
+
+def _oracle_tx(case, obs):
+    if obs["exhausted"]:
+        return (f"transmit servicing did not come to rest within {case['budget']} send attempts "
+                f"(last attempts: {[(d, r) for d, h, r in obs['log'][-3:]]})")
+    if any(obs["excs"]):
+        return f"transmit servicing raised {obs['excs']}"
+    for o in obs["rxs"].values():
+        if any(o["excs"]):
+            return f"receive servicing raised {o['excs']}"
+    vidhex = None if obs["vid"] is None else obs["vid"].encode().hex()
+    for m in case["memos"]:
+        got = obs["rxs"][str(m["dst"])]
+        n = sum(1 for d in got["inbox"] + got["rxms"] if d == [m["text"].encode().hex(), 1, vidhex])
+        if _tx_available(case, m["dst"]) and n != 1:
+            return (f"memo {m['text']!r} for destination {m['dst']}, which stays available, was reconstructed {n} times "
+                    f"(unsent: txms={obs['txms']} txgs={len(obs['txgs'])} txbs dst={obs['txbs'][1]})")
+        if n > 1:
+            return f"memo {m['text']!r} delivered {n} times"
+    return None
+
+
+def _tx_to_coq(case, obs):
+    cfg = case["cfg"]
+    sents, txops, texcs = [], [], []
+    pending, rent = [], 0
+    req = f"(Some {coq_nat(cfg['size'])})"
+    def sent_of(mi, grams):
+        m = case["memos"][mi]
+        params = ("{| MemoGram.r_code := %s; MemoGram.r_curt := %s; MemoGram.r_size := %s; MemoGram.r_mid := %s; "
+                  "MemoGram.r_vid := %s |}" % (CODES[cfg["code"]], coq_bool(cfg["curt"]), coq_nat(min(obs["size"], 4999)),
+                                               coq_bytes(mc.mid_of(m["mid"]).encode()),
+                                               coq_bytes(obs["vid"].encode() if obs["vid"] else b"")))
+        return ("{| MemoRx.s_params := %s; MemoRx.s_icode := %s; MemoRx.s_icurt := %s; MemoRx.s_req := %s; "
+                "MemoRx.s_hist := (@nil MemoGram.cfgop); MemoRx.s_text := %s; MemoRx.s_grams := (Ok %s) |}" % (
+                    params, CODES[cfg["code"]], coq_bool(cfg["curt"]), req, coq_bytes(m["text"].encode()),
+                    coq_list([mc.hexb(g) for g in grams], "bytes")))
+    for op, exc in zip(obs["ops_run"], obs["excs"]):
+        if op[0] == "memoit":
+            pending.append(op[1])
+            continue
+        take = pending if op[0] == "svc" else pending[:1]
+        for mi in list(take):
+            if rent < len(obs["rends"]):
+                grams = obs["rends"][rent]; rent += 1
+                sents.append(sent_of(mi, grams))
+                for g in grams:
+                    txops.append(f"(MemoTx.Gramit {mc.hexb(g)} {coq_N(case['memos'][mi]['dst'])})"); texcs.append(None)
+            pending.remove(mi)
+        txops.append("MemoTx.Service" if op[0] == "svc" else "MemoTx.ServiceOnce"); texcs.append(exc)
+    script = [("(MemoTx.KAcc %s)" % coq_nat(r[1])) if r[0] == "acc" else "MemoTx.KAll" if r[0] == "all" else f"(MemoTx.KErr MemoTx.{r[1]})"
+              for d, h, r in obs["log"]]
+    acc = []
+    for d, h, r in obs["log"]:
+        b = bytes.fromhex(h)
+        n = len(b) if r[0] == "all" else min(r[1], len(b)) if r[0] == "acc" else 0
+        if n:
+            acc.append(f"({coq_N(int(d))}, {coq_bytes(b[:n])})")
+    from harness.core import coq_option
+    txgs = [f"({mc.hexb(g)}, {coq_N(int(d))})" for g, d in obs["txgs"]]
+    txbs = f"({mc.hexb(obs['txbs'][0])}, {coq_option(None if obs['txbs'][1] is None else int(obs['txbs'][1]), coq_N, 'N')})"
+    tx = ("{| MemoTx.c_ops := %s; MemoTx.c_script := %s; MemoTx.c_excs := %s; MemoTx.c_accepted := %s; "
+          "MemoTx.c_txgs := %s; MemoTx.c_txbs := %s |}" % (
+              coq_list(txops, "MemoTx.op"), coq_list(script, "MemoTx.kres"),
+              coq_list([coq_option(e, ty="exn") for e in texcs], "option exn"), coq_list(acc, "N * bytes"),
+              coq_list(txgs, "bytes * N"), txbs))
+    rxc = [mc.coq_rx_case(case["authic"], o["ops"], o, o["excs"]) for d, o in sorted(obs["rxs"].items())]
+    st = [f"({mc.hexb(v)}, {mc.hexb(m)}, {mc.hexb(sg)})" for v, m, sg in obs["sign"]]
+    return ("{| MemoRx.k_sign := %s; MemoRx.k_sent := %s; MemoRx.k_rx := %s; MemoRx.k_more_rx := %s; MemoRx.k_tx := (Some %s) |}" % (
+        coq_list(st, "bytes * bytes * bytes"), coq_list(sents, "MemoRx.sent"), rxc[0], coq_list(rxc[1:], "MemoRx.case"), tx))
 
 
 # --------------------------------------------------------------------------- implementation
@@ -261,6 +516,8 @@ def _ops(case, sent):
 
 
 def run_impl(case):
+    if case.get("kind") == "tx":
+        return _run_tx(case)
     sent, slog = [], []
     for memo in case["memos"]:
         tx, vid = _sender(memo, case.get("keep", "full"))
@@ -310,6 +567,8 @@ def _count_in_header(gram, curt):
 
 
 def oracle(case, obs):
+    if case.get("kind") == "tx":
+        return _oracle_tx(case, obs)
     if any(obs["excs"]):
         return f"receive servicing raised {obs['excs']}"
     for memo, s in zip(case["memos"], obs["sent"]):
@@ -344,7 +603,7 @@ def _first(sched, mi, gi):
 def classify(case, obs, why):
     """D23a: a signed non-zeroth gram all of whose copies arrive before the zeroth gram is dropped for good.
     D23b: service runs between arrivals and copies of a memo's grams arrive after the memo was completed."""
-    if any(obs["excs"]):
+    if case.get("kind") == "tx" or any(obs["excs"]):
         return None
     vs = _memo_verdicts(case, obs)
     classes = set()
@@ -378,6 +637,8 @@ def classify(case, obs, why):
 
 
 def nontrivial(case, obs):
+    if case.get("kind") == "tx":
+        return len({m["dst"] for m in case["memos"]}) >= 2 and any(r[0] == "err" or (r[0] == "acc" and r[1] < len(h) // 2) for d, h, r in obs["log"])
     multi = any(s["grams"] and len(s["grams"]) >= 2 for s in obs["sent"])
     sched = [tuple(x) for x in obs["sched"]]
     inorder = sched == sorted(set(sched)) and len(set(sched)) == len(sched)
@@ -385,6 +646,11 @@ def nontrivial(case, obs):
 
 
 def shrink(case):
+    if case.get("kind") == "tx":
+        for i in range(len(case["ops"])):
+            if case["ops"][i][0] != "memoit":
+                yield dict(case, ops=case["ops"][:i] + case["ops"][i + 1:])
+        return
     if isinstance(case["schedule"], list):
         s = case["schedule"]
         for i in range(len(s)):
@@ -397,6 +663,7 @@ def shrink(case):
 
 def distribution(cases, obs):
     d = {"codes": {}, "curt": 0, "grams_per_memo": {}, "schedules": {}, "svc": {}, "rend_raised": 0}
+    d["tx_fault_cases"] = sum(1 for c in cases if c.get("kind") == "tx")
     for c, o in zip(cases, obs):
         if not isinstance(o, dict) or "sent" not in o:
             continue
@@ -421,6 +688,8 @@ CODES = {"bAAA": "MemoGram.GZ", "bAAC": "MemoGram.AZ", "bAAE": "MemoGram.SZ", "b
 
 
 def to_coq(case, obs):
+    if case.get("kind") == "tx":
+        return _tx_to_coq(case, obs)
     sents = []
     for memo, s in zip(case["memos"], obs["sent"]):
         params = ("{| MemoGram.r_code := %s; MemoGram.r_curt := %s; MemoGram.r_size := %s; MemoGram.r_mid := %s; "
@@ -441,5 +710,6 @@ def to_coq(case, obs):
                          coq_bytes(memo["text"].encode()), grams))
     st = [f"({mc.hexb(v)}, {mc.hexb(m)}, {mc.hexb(sg)})" for v, m, sg in obs["sign"]]
     rx = mc.coq_rx_case(case["authic"], obs["ops"], obs, obs["excs"])
-    return "{| MemoRx.k_sign := %s; MemoRx.k_sent := %s; MemoRx.k_rx := %s |}" % (
-        coq_list(st, "bytes * bytes * bytes"), coq_list(sents, "MemoRx.sent"), rx)
+    return ("{| MemoRx.k_sign := %s; MemoRx.k_sent := %s; MemoRx.k_rx := %s; MemoRx.k_more_rx := (@nil MemoRx.case); "
+            "MemoRx.k_tx := (@None MemoTx.case) |}" % (
+                coq_list(st, "bytes * bytes * bytes"), coq_list(sents, "MemoRx.sent"), rx))
